@@ -946,6 +946,59 @@ def r1110(P, u, rep):
     rep.ob('R11.10', '%s:%s:integers-first' % (TU, fn), ok, msg, where=where)
 
 
+# ============================================================================ R11.11 ===
+# C11 Annex D.1 (ranges of characters allowed in identifiers) and D.2 (not allowed initially)
+ANNEX_D1 = [(0xA8, 0xA8), (0xAA, 0xAA), (0xAD, 0xAD), (0xAF, 0xAF), (0xB2, 0xB5), (0xB7, 0xBA), (0xBC, 0xBE), (0xC0, 0xD6), (0xD8, 0xF6), (0xF8, 0xFF),
+            (0x100, 0x167F), (0x1681, 0x180D), (0x180F, 0x1FFF), (0x200B, 0x200D), (0x202A, 0x202E), (0x203F, 0x2040), (0x2054, 0x2054), (0x2060, 0x206F),
+            (0x2070, 0x218F), (0x2460, 0x24FF), (0x2776, 0x2793), (0x2C00, 0x2DFF), (0x2E80, 0x2FFF), (0x3004, 0x3007), (0x3021, 0x302F), (0x3031, 0x303F),
+            (0x3040, 0xD7FF), (0xF900, 0xFD3D), (0xFD40, 0xFDCF), (0xFDF0, 0xFE44), (0xFE47, 0xFFFD)] + [(p << 16, (p << 16) | 0xFFFD) for p in range(1, 15)]
+ANNEX_D2 = [(0x300, 0x36F), (0x1DC0, 0x1DFF), (0x20D0, 0x20FF), (0xFE20, 0xFE2F)]
+
+
+def _in(ranges, c):
+    return any(lo <= c <= hi for lo, hi in ranges)
+
+
+def r1111(P, rep):
+    uu = P.unit(UU)
+    _need(uu, 'is_ident1', 'is_ident2')
+    rep.rule('R11.11', 'identifier characters: is_ident1/is_ident2 accept exactly [A-Za-z_] (+ digits after the first character) and the universal characters of C11 Annex D.1, those of D.2 not initially', floor=8)
+    pts = set()
+    for lo, hi in ANNEX_D1 + ANNEX_D2:
+        pts.update([lo - 1, lo, hi, hi + 1])
+    pts.update([0, 0x20, 0x2F, 0x30, 0x39, 0x3A, 0x40, 0x41, 0x5A, 0x5B, 0x5F, 0x60, 0x61, 0x7A, 0x7B, 0x7F, 0x80, 0xA0, 0x3B1, 0x3042, 0xFFFE, 0xFFFF, 0xEFFFE, 0xF0000, 0x10FFFF])
+    pts = sorted(c for c in pts if 0 <= c <= 0x10FFFF and c != 0x24)     # '$' is a documented GNU extension of chibicc
+    res = {}
+    for fn in ('is_ident1', 'is_ident2'):
+        it = L.CInterp(P, uu, {'models': L.make_models()})
+        for c in pts:
+            ctx, out = L.run1(it, fn, [c])
+            v = it.settle(out[1]) if out[0] == 'ret' else None
+            if not isinstance(v, int):
+                raise AnalysisBroken('%s(U+%04X) has no concrete result' % (fn, c))
+            res[(fn, c)] = bool(v)
+
+    def ascii_ok(c, first):
+        ch = chr(c)
+        return ch == '_' or 'a' <= ch <= 'z' or 'A' <= ch <= 'Z' or (not first and '0' <= ch <= '9')
+    groups = {}
+    for c in pts:
+        for fn, first in (('is_ident1', True), ('is_ident2', False)):
+            if c < 0x80:
+                want, g = ascii_ok(c, first), 'basic-characters'
+            else:
+                want = _in(ANNEX_D1, c) and not (first and _in(ANNEX_D2, c))
+                g = 'annex-D2-not-initially' if _in(ANNEX_D2, c) or _in(ANNEX_D2, c - 1) or _in(ANNEX_D2, c + 1) else \
+                    ('annex-D1-bmp' if c < 0x10000 else 'annex-D1-supplementary')
+            cur = groups.setdefault((fn, g), [True, ''])
+            if res[(fn, c)] != want and cur[0]:
+                cur[0] = False
+                cur[1] = '%s(U+%04X) is %s; C11 6.4.2.1 / Annex D %s this character %s' % (
+                    fn, c, 'true' if res[(fn, c)] else 'false', 'allows' if want else 'does not allow', 'at the start of an identifier' if first else 'inside an identifier')
+    for (fn, g), (ok, msg) in sorted(groups.items()):
+        rep.ob('R11.11', '%s:%s:%s' % (UU, fn, g), ok, msg, where=_where(uu, fn))
+
+
 def run(P, rep, tier):
     u = P.unit(TU)
     rep.explanation = ('The literal readers of tokenize.c/unicode.c/preprocess.c are interpreted (Engine I) on the spellings of the C11 literal grammar. '
@@ -958,7 +1011,7 @@ def run(P, rep, tier):
     _need(u, 'tokenize', 'tokenize_file', 'convert_pp_int', 'convert_pp_number', 'read_escaped_char', 'read_utf16_string_literal')
     for rule, f in (('R11.1', lambda: r111(P, u, rep)), ('R11.3', lambda: r113(P, u, rep)), ('R11.4', lambda: r114(P, rep)),
                     ('R11.5', lambda: r115(P, u, rep)), ('R11.6', lambda: r116(P, u, rep)), ('R11.7', lambda: r117(P, u, rep)),
-                    ('R11.8', lambda: r118(P, u, rep)), ('R11.9', lambda: r119(P, u, rep)), ('R11.10', lambda: r1110(P, u, rep))):
+                    ('R11.8', lambda: r118(P, u, rep)), ('R11.9', lambda: r119(P, u, rep)), ('R11.10', lambda: r1110(P, u, rep)), ('R11.11', lambda: r1111(P, rep))):
         try:
             f()
         except AnalysisBroken as e:
